@@ -1,5 +1,6 @@
 import PromqlVerif.Proto
 import PromqlVerif.Eng
+import PromqlVerif.Iter
 open PromqlVerif
 
 structure DState where
@@ -41,6 +42,30 @@ def evalView (s : DState) (view : String) : String :=
         | none => "bad-op"
       | _ => "bad-op"
 
+def showOptPt : Option (Int × Float) → String
+  | none => "-"
+  | some (t, v) => toString t ++ ":" ++ showBits v
+
+/-- kernel-level views: the iterator model and the declarative selection on the first series -/
+def kernelView (s : DState) (what : String) (args : List String) : String :=
+  match s.series, what, args with
+  | sr :: _, "selectpoint", [lb, refs] =>
+    match lb.toInt?, (refs.splitOn ",").mapM String.toInt? with
+    | some lb, some refs =>
+      let it := selectPointsM lb (Memo.new sr.samples) refs
+      let sp := refs.map fun r => selectSample lb r sr.samples
+      "it=" ++ String.intercalate "," (it.map showOptPt) ++ " spec=" ++ String.intercalate "," (sp.map showOptPt)
+    | _, _ => "bad-op"
+  | sr :: _, "selectpoints", [rg, refs] =>
+    match rg.toInt?, (refs.splitOn ",").mapM String.toInt? with
+    | some rg, some refs =>
+      let sh := fun (ps : List (Int × Float)) => String.intercalate "+" (ps.map fun p => showOptPt (some p))
+      let it := selectRangesB rg (Buf.new sr.samples) [] refs
+      let sp := refs.map fun r => windowPoints (r - rg) r sr.samples
+      "it=" ++ String.intercalate "," (it.map sh) ++ " spec=" ++ String.intercalate "," (sp.map sh)
+    | _, _ => "bad-op"
+  | _, _, _ => "bad-op"
+
 def stepLine (s : DState) (line : String) : DState × Option String :=
   let toks := (line.splitOn " ").filter (· != "")
   match toks with
@@ -70,6 +95,7 @@ def stepLine (s : DState) (line : String) : DState × Option String :=
       | some e => ({ s with query := some e }, none)
       | none => ({ s with bad := true }, none)
     | none => ({ s with bad := true }, none)
+  | "kernel" :: what :: args => (s, some ("kernel " ++ (if s.bad then "bad-op" else kernelView s what args)))
   | ["eval", view] => (s, some (view ++ " " ++ evalView s view))
   | ["end"] => ({}, some "end")
   | _ => ({ s with bad := true }, none)
